@@ -3,7 +3,7 @@
 
    Not proved (checked on every generated package instead, see harness/props/c05.py): that the real traversal order of
    expand_exports / expand_wildcards (griffe_load) computes what the dependency-order schedule (griffe_sched) computes when no
-   gap event (findings F1, F2, F3, F8) is reported; and the composition of the per-module theorems below into
+   gap event (findings F3, F8, F10) is reported; and the composition of the per-module theorems below into
        forall acyclic programs of the grammar, agreeb top (griffe_sched top ms order) (py_import ms order) = true. *)
 From Coq Require Import List ZArith String Bool Arith.
 From Verif Require Import Lib.Sexp Model.C05_imports Proofs.C05_imports.
@@ -71,7 +71,8 @@ Theorem C05_apply_one_is_the_rule :
 Proof. exact apply_one_is_basic. Qed.
 Print Assumptions C05_apply_one_is_the_rule.
 
-(* ... and the special case skips an overwrite exactly when the new alias resolves to the module the old member resolves to. *)
+(* ... and the special case skips an overwrite exactly when the new alias resolves to the module the old member resolves to;
+   the kept alias then takes the line of the wildcard import (repair of former finding F9). *)
 Theorem C05_submodule_special_case :
   forall fuel t top mp ms e old q,
   lookup (e_name e) ms = Some old ->
@@ -80,7 +81,8 @@ Theorem C05_submodule_special_case :
   final fuel (set_mod t mp (mkSt ms [] None)) top old (mp ++ [e_name e]) = FMod q ->
   apply_one fuel t top mp ms e =
   if fres_eqb (final fuel (set_mod t mp (mkSt ms [] None)) top (wrap e) (mp ++ [e_name e])) (FMod q)
-  then ms else assign (e_name e) (wrap e) ms.
+  then (if is_alias old then assign (e_name e) (relineno old (e_ln e)) ms else ms)
+  else assign (e_name e) (wrap e) ms.
 Proof. exact special_case_condition. Qed.
 Print Assumptions C05_submodule_special_case.
 
@@ -136,30 +138,15 @@ Theorem C05_alias_member_paths_under_alias :
 Proof. exact alias_paths_under_alias. Qed.
 Print Assumptions C05_alias_member_paths_under_alias.
 
-(* ---- the full property is false of the faithful model of the real traversal: one witness per finding ------------------------ *)
+(* ---- the full property is false of the faithful model of the real traversal: one witness per open finding ------------------- *)
+(* (former findings F1, F2 and F9 are repaired: their witnesses are now Examples in Proofs/ on which the model agrees with CPython) *)
 (* In each, the program is accepted by py_import in the given dependency order (so it is acyclic and well formed), the faithful model
    disagrees with CPython, the model's gap event fires and no other does, and the dependency-order schedule agrees with CPython. *)
-
-Theorem C05_exports_early_return_refuted :        (* F1 *)
-  exists top ms order,
-    is_ok (py_import ms order []) = true /\
-    (exists l, griffe_load top ms = Done l /\ unexpanded_unreached l <> [] /\ l_pending l = [] /\ l_dropped l = []) /\
-    agreeb top (loaded_table (griffe_load top ms)) (py_table (py_import ms order [])) = false /\
-    agreeb top (griffe_sched top ms order) (py_table (py_import ms order [])) = true.
-Proof. exact exports_early_return_refuted. Qed.
-Print Assumptions C05_exports_early_return_refuted.
-
-Theorem C05_alias_module_all_crash_refuted :      (* F2 *)
-  exists top ms order,
-    is_ok (py_import ms order []) = true /\ griffe_load top ms = Crash "AttributeError" /\
-    agreeb top (griffe_sched top ms order) (py_table (py_import ms order [])) = true.
-Proof. exact alias_module_all_crash_refuted. Qed.
-Print Assumptions C05_alias_module_all_crash_refuted.
 
 Theorem C05_pending_package_read_refuted :        (* F3 *)
   exists top ms order,
     is_ok (py_import ms order []) = true /\
-    (exists l, griffe_load top ms = Done l /\ l_pending l <> [] /\ unexpanded_unreached l = [] /\ l_dropped l = []) /\
+    (exists l, griffe_load top ms = Done l /\ l_pending l <> [] /\ l_dropped l = []) /\
     agreeb top (loaded_table (griffe_load top ms)) (py_table (py_import ms order [])) = false /\
     agreeb top (griffe_sched top ms order) (py_table (py_import ms order [])) = true.
 Proof. exact pending_package_read_refuted. Qed.
@@ -187,7 +174,7 @@ Print Assumptions C05_stale_alias_refuted.
 Theorem C05_dropped_export_source_refuted :       (* F8 *)
   exists top ms order,
     is_ok (py_import ms order []) = true /\
-    (exists l, griffe_load top ms = Done l /\ l_dropped l <> [] /\ l_pending l = [] /\ unexpanded_unreached l = []) /\
+    (exists l, griffe_load top ms = Done l /\ l_dropped l <> [] /\ l_pending l = []) /\
     agreeb top (loaded_table (griffe_load top ms)) (py_table (py_import ms order [])) = false /\
     agreeb top (griffe_sched top ms order) (py_table (py_import ms order [])) = true.
 Proof. exact dropped_export_source_refuted. Qed.
@@ -221,23 +208,10 @@ Theorem C05_module_names_and_targets_eq_cpython :
 Proof. exact module_names_eq_cpython. Qed.
 Print Assumptions C05_module_names_and_targets_eq_cpython.
 
-(* F9: every body has one statement per line, yet the real traversal and the schedule both disagree with CPython: the submodule
-   special case refuses an overwrite and keeps the older line number, so an earlier wildcard import processed later wins. *)
-Theorem C05_special_case_lineno_refuted :
-  exists top ms order,
-    is_ok (py_import ms order []) = true /\
-    (exists l, griffe_load top ms = Done l /\ l_special l <> [] /\ l_pending l = [] /\ l_dropped l = [] /\
-               unexpanded_unreached l = [] /\ l_xpending l = []) /\
-    (forall m, In m ms -> increasing (ms_body m)) /\
-    agreeb top (loaded_table (griffe_load top ms)) (py_table (py_import ms order [])) = false /\
-    agreeb top (griffe_sched top ms order) (py_table (py_import ms order [])) = false.
-Proof. exact special_case_lineno_refuted. Qed.
-Print Assumptions C05_special_case_lineno_refuted.
-
 Theorem C05_exports_pending_read_refuted :        (* F10 *)
   exists top ms order,
     is_ok (py_import ms order []) = true /\
-    (exists l, griffe_load top ms = Done l /\ l_xpending l <> [] /\ l_dropped l = [] /\ unexpanded_unreached l = []) /\
+    (exists l, griffe_load top ms = Done l /\ l_xpending l <> [] /\ l_dropped l = []) /\
     agreeb top (loaded_table (griffe_load top ms)) (py_table (py_import ms order [])) = false /\
     agreeb top (griffe_sched top ms order) (py_table (py_import ms order [])) = true.
 Proof. exact exports_pending_read_refuted. Qed.
